@@ -1,4 +1,4 @@
-CONSTANTS MaxLen = 3
+CONSTANTS MaxLen = 2
  CoreLen = 4
  Emit = TRUE
 SPECIFICATION Spec
